@@ -1,4 +1,5 @@
 import SaVerif.Lemmas.Poly
+set_option linter.unusedSimpArgs false
 /-!
 # C42 — Polymorphic queries return each row as its most specific class
 
@@ -10,88 +11,147 @@ inheritance kind; the theorems quantify over every class tree (given by its ance
 chains), every set of objects and every queried class.  The result functions do not
 take the with_polymorphic setting at all: it only decides which columns arrive with the
 first SELECT (`primaryCols`) — `with_polymorphic_all_defers_nothing` — the values are the
-stored ones in every case.
+stored ones in every case.  Discriminator values are explicit (`Hier.idents`, an injective
+assignment, `none` for `polymorphic_abstract` classes; 0 is the falsy value): section 1b is
+about the single-table IN list as a function of the mapper tree.  Section 5 is about what
+attribute access returns after the row met the object (`populate`): new instance,
+`populate_existing` / `always_refresh`, object already in the Session.
 -/
 namespace SaVerif.Props.C42
 open SaVerif.Poly
 
 /-! ## 1. the row → class decision -/
 
-/-- `_decorate_polymorphic_switch`: exactly four outcomes -/
-theorem decideClass_spec (h : Hier) (c : Nat) (disc : Option Nat) :
+/-- `_decorate_polymorphic_switch`: exactly four outcomes; `v` is the discriminator value of
+    the row, `d` the class whose `polymorphic_identity` it is -/
+theorem decideClass_spec (h : Hier) (hw : WFH h) (c : Nat) (disc : Option Nat) :
     (disc = none → decideClass h c disc = .error .nullDiscriminator) ∧
-    (∀ d, disc = some d → ¬ d < h.n → decideClass h c disc = .error .unknownIdentity) ∧
-    (∀ d, disc = some d → d < h.n → h.isa d c = false → decideClass h c disc = .error .notSubMapper) ∧
-    (∀ d, disc = some d → d < h.n → h.isa d c = true → decideClass h c disc = .ok d) := by
+    (∀ v, disc = some v → (∀ d, d < h.n → h.ident d ≠ some v) →
+      decideClass h c disc = .error .unknownIdentity) ∧
+    (∀ v d, disc = some v → d < h.n → h.ident d = some v → h.isa d c = false →
+      decideClass h c disc = .error .notSubMapper) ∧
+    (∀ v d, disc = some v → d < h.n → h.ident d = some v → h.isa d c = true →
+      decideClass h c disc = .ok d) := by
   refine ⟨?_, ?_, ?_, ?_⟩
   · intro h1; subst h1; rfl
-  · intro d h1 h2; subst h1; simp [decideClass, h2]
-  · intro d h1 h2 h3; subst h1; simp [decideClass, h2, h3]
-  · intro d h1 h2 h3; subst h1; simp [decideClass, h2, h3]
+  · intro v h1 h2; subst h1
+    cases hf : h.classOf v with
+    | none => simp [decideClass, hf]
+    | some d => exact absurd (classOf_some h v d hf).2 (h2 d (classOf_some h v d hf).1)
+  · intro v d h1 h2 h3 h4; subst h1; simp [decideClass, classOf_ident h hw d v h2 h3, h4]
+  · intro v d h1 h2 h3 h4; subst h1; simp [decideClass, classOf_ident h hw d v h2 h3, h4]
 
-example : decideClass ⟨[[0], [0, 1], [0, 2]], []⟩ 1 (some 2) = .error .notSubMapper := by rfl
-example : decideClass ⟨[[0], [0, 1], [0, 2]], []⟩ 0 (some 7) = .error .unknownIdentity := by rfl
+example : decideClass ⟨[[0], [0, 1], [0, 2]], [], []⟩ 1 (some 2) = .error .notSubMapper := by rfl
+example : decideClass ⟨[[0], [0, 1], [0, 2]], [], []⟩ 0 (some 7) = .error .unknownIdentity := by rfl
+-- identities 3, 0, 1, 2 (a falsy identity on a non-base class): value 0 names class 1
+example : decideClass ⟨[[0], [0, 1], [0, 1, 2], [0, 3]], [], [some 3, some 0, some 1, some 2]⟩ 1 (some 0) = .ok 1 := by rfl
+-- an abstract class has no identity
+example : decideClass ⟨[[0], [0, 1], [0, 1, 2]], [], [some 0, none, some 2]⟩ 0 (some 1) = .error .unknownIdentity := by rfl
+
+/-! ## 1b. the single-table IN list as a function of the mapper tree -/
+
+/-- **in_list_exact**: the discriminator values `Mapper._single_table_criteria_component`
+    collects for class `c` are exactly the identities of the non-abstract classes of `c`'s
+    subtree — whatever the values are (0 / False / '' included) -/
+theorem in_list_exact (h : Hier) (c v : Nat) :
+    v ∈ h.inList c ↔ ∃ d, d < h.n ∧ h.isa d c = true ∧ h.ident d = some v :=
+  mem_inList h c v
+
+/-- every non-abstract class of the subtree contributes its identity, the class itself
+    included -/
+theorem in_list_complete (h : Hier) (c d v : Nat) (hd : d < h.n) (hi : h.isa d c = true)
+    (hv : h.ident d = some v) : v ∈ h.inList c :=
+  (mem_inList h c v).2 ⟨d, hd, hi, hv⟩
+
+/-- nothing else is in the list: no identity of a class outside the subtree, nothing for an
+    abstract class -/
+theorem in_list_sound (h : Hier) (hw : WFH h) (c d v : Nat) (hd : d < h.n) (hv : h.ident d = some v)
+    (hi : h.isa d c = false) : v ∉ h.inList c := by
+  intro hm
+  obtain ⟨e, he, hie, hve⟩ := (mem_inList h c v).1 hm
+  rw [hw.ident_inj e d v he hd hve hv, hi] at hie
+  cases hie
+
+/-- one entry per non-abstract class of the subtree, in class order -/
+theorem in_list_length (h : Hier) (c : Nat) :
+    (h.inList c).length = ((h.sub c).filter (fun d => (h.ident d).isSome)).length := by
+  unfold Hier.inList
+  induction h.sub c with
+  | nil => rfl
+  | cons x xs ih =>
+    simp only [List.filterMap_cons, List.filter_cons]
+    cases hx : h.ident x <;> simp [ih]
+
+example : (⟨[[0], [0, 1], [0, 1, 2], [0, 3]], [], [some 3, some 0, some 1, some 2]⟩ : Hier).inList 1 = [0, 1] := by rfl
+example : (⟨[[0], [0, 1], [0, 1, 2], [0, 1, 3]], [], [some 3, none, some 0, some 2]⟩ : Hier).inList 1 = [0, 2] := by rfl
 
 /-! ## 2. single-table inheritance -/
 
-theorem selSingle_store (h : Hier) (c : Nat) (o : PObj) (ho : o.cls < h.n)
+theorem selSingle_store (h : Hier) (hw : WFH h) (c : Nat) (o : PObj) (ho : o.cls < h.n)
+    (v : Nat) (hv : h.ident o.cls = some v)
     (hroot : (h.anc c).length ≤ 1 → h.isa o.cls c = true) (vals : List (Option Int)) :
-    selSingle h c ⟨o.id, some o.cls, vals⟩ = h.isa o.cls c := by
+    selSingle h c ⟨o.id, h.ident o.cls, vals⟩ = h.isa o.cls c := by
   unfold selSingle
   split
   · rename_i hl; rw [hroot hl]
-  · simp only
+  · simp only [hv]
     cases hi : h.isa o.cls c
-    · have : ¬ (o.cls ∈ h.sub c) := by rw [mem_sub]; simp [hi]
+    · have : ¬ (v ∈ h.inList c) := in_list_sound h hw c o.cls v ho hv hi
       simpa using this
-    · have : o.cls ∈ h.sub c := by rw [mem_sub]; exact ⟨ho, hi⟩
+    · have : v ∈ h.inList c := in_list_complete h c o.cls v ho hi hv
       simpa using this
 
 /-- **polymorphic_most_specific_single**: over a consistently stored single table, a query
     against any class returns exactly the objects whose class descends from it, in table
     order, each as its own class with its own attribute values. -/
 theorem polymorphic_most_specific_single (h : Hier) (hw : WFH h) (c : Nat) (objs : List PObj)
-    (hcls : ∀ o ∈ objs, o.cls < h.n)
+    (hcls : ∀ o ∈ objs, o.cls < h.n) (hid : ∀ o ∈ objs, ∃ v, h.ident o.cls = some v)
     (hroot : (h.anc c).length ≤ 1 → ∀ o ∈ objs, h.isa o.cls c = true) :
     querySingle h c (storeSingle h objs) =
       .ok ((objs.filter (fun o => h.isa o.cls c)).map (entOf h)) := by
   unfold querySingle storeSingle
   rw [List.filter_map]
-  have hf : (objs.filter ((selSingle h c) ∘ fun o => (⟨o.id, some o.cls,
+  have hf : (objs.filter ((selSingle h c) ∘ fun o => (⟨o.id, h.ident o.cls,
       (List.range h.n).map (fun a => if (h.anc o.cls).contains a then o.attr a else none)⟩ : SRow)))
         = objs.filter (fun o => h.isa o.cls c) := by
     apply List.filter_congr
     intro o ho
-    exact selSingle_store h c o (hcls o ho) (fun hl => hroot hl o ho) _
+    obtain ⟨v, hv⟩ := hid o ho
+    exact selSingle_store h hw c o (hcls o ho) v hv (fun hl => hroot hl o ho) _
   rw [hf]
-  rw [mapM_ok (loadSingle h c) (fun r => entOfSRow h (r.disc.getD 0) r)]
+  rw [mapM_ok (loadSingle h c) (fun r => entOfSRow h ((r.disc.bind h.classOf).getD 0) r)]
   · rw [List.map_map]
     congr 1
     apply List.map_congr_left
     intro o ho
     have ho' := (List.mem_filter.1 ho).1
+    obtain ⟨v, hv⟩ := hid o ho'
+    simp only [Function.comp, hv, Option.bind_some, classOf_ident h hw o.cls v (hcls o ho') hv,
+      Option.getD_some]
+    rw [← hv]
     exact entOfSRow_store h hw o (hcls o ho')
   · intro r hr
     obtain ⟨o, ho, rfl⟩ := List.mem_map.1 hr
     obtain ⟨ho1, ho2⟩ := List.mem_filter.1 ho
     have h2 : h.isa o.cls c = true := by simpa using ho2
-    simp [loadSingle, decideClass, hcls o ho1, h2]
+    obtain ⟨v, hv⟩ := hid o ho1
+    simp [loadSingle, decideClass, hv, classOf_ident h hw o.cls v (hcls o ho1) hv, h2]
 
 /-- **subclass_filter_single**: an entity is returned iff it is a stored object of the
     queried subtree -/
 theorem subclass_filter_single (h : Hier) (hw : WFH h) (c : Nat) (objs : List PObj)
-    (hcls : ∀ o ∈ objs, o.cls < h.n)
+    (hcls : ∀ o ∈ objs, o.cls < h.n) (hid : ∀ o ∈ objs, ∃ v, h.ident o.cls = some v)
     (hroot : (h.anc c).length ≤ 1 → ∀ o ∈ objs, h.isa o.cls c = true) :
     ∃ ents, querySingle h c (storeSingle h objs) = .ok ents ∧
       ∀ e, e ∈ ents ↔ ∃ o ∈ objs, h.isa o.cls c = true ∧ e = entOf h o := by
-  refine ⟨_, polymorphic_most_specific_single h hw c objs hcls hroot, ?_⟩
+  refine ⟨_, polymorphic_most_specific_single h hw c objs hcls hid hroot, ?_⟩
   intro e
   simp only [List.mem_map, List.mem_filter]
   constructor
   · rintro ⟨o, ⟨h1, h2⟩, rfl⟩; exact ⟨o, h1, h2, rfl⟩
   · rintro ⟨o, h1, h2, rfl⟩; exact ⟨o, ⟨h1, h2⟩, rfl⟩
 
-def sampleH : Hier := ⟨[[0], [0, 1], [0, 2], [0, 1, 3]], []⟩
+def sampleH : Hier := ⟨[[0], [0, 1], [0, 2], [0, 1, 3]], [], [some 2, some 0, some 1, some 3]⟩
 def sampleObjs : List PObj :=
   [⟨1, 0, fun _ => some 10⟩, ⟨2, 1, fun a => some (20 + a)⟩, ⟨3, 3, fun _ => none⟩, ⟨4, 2, fun _ => some 4⟩]
 
@@ -101,7 +161,7 @@ example : querySingle sampleH 1 (storeSingle sampleH sampleObjs) =
 /-- an unknown identity or a NULL discriminator in the table fails a query against the
     base class with the documented error, and is filtered out of subclass queries -/
 theorem single_bad_discriminator (h : Hier) (c : Nat) (r : SRow)
-    (hbad : r.disc = none ∨ ∃ d, r.disc = some d ∧ ¬ d < h.n) :
+    (hbad : r.disc = none ∨ ∃ v, r.disc = some v ∧ h.classOf v = none) :
     ((h.anc c).length ≤ 1 → ∃ e, loadSingle h c r = .error e ∧
         (e = .nullDiscriminator ∨ e = .unknownIdentity)) ∧
     (¬ (h.anc c).length ≤ 1 → selSingle h c r = false) := by
@@ -116,7 +176,10 @@ theorem single_bad_discriminator (h : Hier) (c : Nat) (r : SRow)
     rcases hbad with h1 | ⟨d, h1, h2⟩
     · simp [h1]
     · simp only [h1]
-      have : ¬ d ∈ h.sub c := by rw [mem_sub]; exact fun hh => h2 hh.1
+      have : ¬ d ∈ h.inList c := by
+        rw [mem_inList]
+        rintro ⟨e, he, _, hv⟩
+        exact classOf_none h d h2 e he hv
       simpa using this
 
 /-! ## 2b. joined-table inheritance -/
@@ -128,6 +191,7 @@ structure JoinedWF (h : Hier) (root : Nat) (objs : List PObj) : Prop where
   chain : ∀ d c a, d < h.n → h.isa d c = true → a ∈ h.anc c → h.isa d a = true
   rooted : ∀ o ∈ objs, h.isa o.cls root = true
   cls_lt : ∀ o ∈ objs, o.cls < h.n
+  has_ident : ∀ o ∈ objs, ∃ v, h.ident o.cls = some v
   ids : (objs.map (·.id)).Nodup
 
 theorem subs_getD (h : Hier) (root a : Nat) (objs : List PObj) (ha : a < h.n) :
@@ -142,7 +206,7 @@ theorem hasRow_store (h : Hier) (root a : Nat) (objs : List PObj) (w : JoinedWF 
   by_cases hr : a = root
   · subst hr
     simp only [beq_self_eq_true, if_true, w.rooted o ho]
-    have := any_unique (fun _ => true) (fun o => (o.id, some o.cls, o.attr a)) (fun r => r.1)
+    have := any_unique (fun _ => true) (fun o => (o.id, h.ident o.cls, o.attr a)) (fun r => r.1)
       (fun _ => rfl) objs w.ids o ho
     simpa [storeJoined] using this
   · have : (a == root) = false := by simp [hr]
@@ -157,7 +221,7 @@ theorem attr_store (h : Hier) (root a : Nat) (objs : List PObj) (w : JoinedWF h 
   by_cases hr : a = root
   · subst hr
     simp only [beq_self_eq_true, if_true]
-    have := find_unique (fun _ => true) (fun o => (o.id, some o.cls, o.attr a)) (fun r => r.1)
+    have := find_unique (fun _ => true) (fun o => (o.id, h.ident o.cls, o.attr a)) (fun r => r.1)
       (fun _ => rfl) objs w.ids o ho rfl
     have hft : objs.filter (fun _ => true) = objs := List.filter_eq_self.2 (fun _ _ => rfl)
     rw [hft] at this
@@ -191,24 +255,26 @@ theorem polymorphic_most_specific_joined (h : Hier) (root c : Nat) (objs : List 
     queryJoined h root c (storeJoined h root objs) =
       .ok ((objs.filter (fun o => h.isa o.cls c)).map (entOf h)) := by
   unfold queryJoined
-  have hb : (storeJoined h root objs).base = objs.map (fun o => (o.id, some o.cls, o.attr root)) := rfl
+  have hb : (storeJoined h root objs).base = objs.map (fun o => (o.id, h.ident o.cls, o.attr root)) := rfl
   rw [hb, List.filter_map]
   have hf : objs.filter ((fun r : Nat × Option Nat × Option Int =>
         (h.anc c).all (fun a => (storeJoined h root objs).hasRow root a r.1)) ∘
-        fun o => (o.id, some o.cls, o.attr root)) = objs.filter (fun o => h.isa o.cls c) := by
+        fun o => (o.id, h.ident o.cls, o.attr root)) = objs.filter (fun o => h.isa o.cls c) := by
     apply List.filter_congr
     intro o ho
     exact chain_filter h root c objs w hc o ho
   rw [hf]
   rw [mapM_ok (loadJoined h root c (storeJoined h root objs))
-    (fun r => ⟨r.1, r.2.1.getD 0, (h.anc (r.2.1.getD 0)).map (fun a =>
+    (fun r => ⟨r.1, (r.2.1.bind h.classOf).getD 0, (h.anc ((r.2.1.bind h.classOf).getD 0)).map (fun a =>
       ((storeJoined h root objs).attr root a r.1).getD none)⟩)]
   · rw [List.map_map]
     congr 1
     apply List.map_congr_left
     intro o ho
     have ho' := (List.mem_filter.1 ho).1
-    simp only [Function.comp, Option.getD_some, entOf, Ent.mk.injEq, true_and]
+    obtain ⟨v, hv⟩ := w.has_ident o ho'
+    simp only [Function.comp, hv, Option.bind_some, classOf_ident h w.wf o.cls v (w.cls_lt o ho') hv,
+      Option.getD_some, entOf, Ent.mk.injEq, true_and]
     apply List.map_congr_left
     intro a ha
     have hia : h.isa o.cls a = true := by simpa [Hier.isa] using ha
@@ -224,7 +290,9 @@ theorem polymorphic_most_specific_joined (h : Hier) (root c : Nat) (objs : List 
       intro a ha
       have hia : h.isa o.cls a = true := by simpa [Hier.isa] using ha
       exact attr_store h root a objs w (w.wf.anc_lt o.cls a (w.cls_lt o ho1) ha) o ho1 hia
-    simp only [loadJoined, decideClass, w.cls_lt o ho1, if_true, h2, hm, Option.getD_some]
+    obtain ⟨v, hv⟩ := w.has_ident o ho1
+    simp only [loadJoined, decideClass, hv, Option.bind_some,
+      classOf_ident h w.wf o.cls v (w.cls_lt o ho1) hv, if_true, h2, hm, Option.getD_some]
     congr 1
     simp only [Ent.mk.injEq, true_and]
     apply List.map_congr_left
@@ -239,10 +307,11 @@ example : queryJoined sampleH 0 1 (storeJoined sampleH 0 sampleObjs) =
 /-- a row whose discriminator names a class outside the queried subtree (the identity of
     the parent class, say) while the queried class's table holds its key: the documented
     "not a sub-mapper" error -/
-theorem joined_wrong_branch (h : Hier) (root c d : Nat) (t : JTables) (r : Nat × Option Nat × Option Int)
-    (hd : r.2.1 = some d) (hlt : d < h.n) (hn : h.isa d c = false) :
+theorem joined_wrong_branch (h : Hier) (hw : WFH h) (root c d v : Nat) (t : JTables)
+    (r : Nat × Option Nat × Option Int)
+    (hd : r.2.1 = some v) (hlt : d < h.n) (hv : h.ident d = some v) (hn : h.isa d c = false) :
     loadJoined h root c t r = .error .notSubMapper := by
-  simp [loadJoined, decideClass, hd, hlt, hn]
+  simp [loadJoined, decideClass, hd, classOf_ident h hw d v hlt hv, hn]
 
 /-! ## 3. concrete inheritance -/
 
@@ -300,5 +369,121 @@ theorem with_polymorphic_all_defers_nothing (h : Hier) (k : Kind) (c : Nat) (ent
     simp only [deferredLoads, List.length_eq_zero_iff, List.filter_eq_nil_iff]
     intro e he
     rw [key e he]; simp
+
+/-! ## 5. populate_existing, always_refresh, objects already in the Session -/
+
+/-- the states population leaves an attribute in: a dict entry, or the expired flag -/
+def Sound (s : ASt) : Prop := s.val ≠ none ∨ s.exp = true
+
+theorem populate_sound (created pe inRow : Bool) (rowv : Option Int) (s : ASt)
+    (hs : created = false → Sound s) : Sound (populate created pe inRow rowv s) := by
+  unfold populate
+  cases created <;> cases pe <;> cases inRow <;> simp [Sound]
+  all_goals
+    cases hv : s.val with
+    | none => simp [Sound, hv]
+    | some v =>
+      have := hs rfl
+      simp [Sound, hv] at this ⊢
+
+/-- **populate_existing_reads_db**: under `populate_existing` (or `always_refresh`) every
+    attribute of the row's class reads the database value after the load — whether the
+    statement carried its column or not, whatever state the object was in before -/
+theorem populate_existing_reads_db (created inRow : Bool) (db : Option Int) (s : ASt) :
+    readAttr db (populate created true inRow db s) = db := by
+  unfold populate readAttr
+  cases created <;> cases inRow <;> simp
+
+/-- an instance created by the row reads the database values, with or without the option -/
+theorem new_instance_reads_db (pe inRow : Bool) (db : Option Int) :
+    readAttr db (populate true pe inRow db {}) = db := by
+  unfold populate readAttr
+  cases pe <;> cases inRow <;> simp
+
+/-- **plain_load_keeps_reads**: without `populate_existing` a row meeting an object already
+    in the Session changes nothing that attribute access can see -/
+theorem plain_load_keeps_reads (inRow : Bool) (db : Option Int) (s : ASt) (hs : Sound s) :
+    readAttr db (populate false false inRow db s) = readAttr db s := by
+  unfold populate readAttr
+  cases hv : s.val with
+  | some v => simp [hv]
+  | none =>
+    have he : s.exp = true := by
+      rcases hs with h1 | h1
+      · exact absurd hv h1
+      · exact h1
+    cases inRow <;> simp [he]
+
+/-- further loads of the same object (the `IN` loads of `polymorphic_load="selectin"` /
+    `selectin_polymorphic`, which inherit the option) keep an attribute that reads the
+    database value reading it -/
+theorem later_loads_keep_db (pe inRow : Bool) (db : Option Int) (s : ASt) (hs : Sound s)
+    (hr : readAttr db s = db) : readAttr db (populate false pe inRow db s) = db := by
+  cases pe
+  · rw [plain_load_keeps_reads inRow db s hs, hr]
+  · exact populate_existing_reads_db false inRow db s
+
+theorem map_snd_zip_eq {α β : Type} : ∀ (l₁ : List α) (l₂ : List β), l₂.length = l₁.length →
+    (l₁.zip l₂).map (fun ab => ab.2) = l₂
+  | [], [], _ => rfl
+  | [], _ :: _, h => by cases h
+  | _ :: _, [], h => by cases h
+  | a :: l₁, b :: l₂, h => by
+    simp only [List.zip_cons_cons, List.map_cons]
+    rw [map_snd_zip_eq l₁ l₂ (by simpa using h)]
+
+/-- **readEnt_populate_existing**: entity level — with `populate_existing` every returned
+    object reads exactly the values of its row chain, for every with_polymorphic setting and
+    every prior state of the Session -/
+theorem readEnt_populate_existing (h : Hier) (c : Nat) (wp : WP) (pre : Nat → Option (Nat → ASt))
+    (e : Ent) (hl : e.vals.length = (h.anc e.cls).length) :
+    readEnt h c wp true pre e = e := by
+  unfold readEnt
+  cases hp : pre e.id with
+  | none =>
+    simp only [populate_existing_reads_db]
+    rw [map_snd_zip_eq _ _ hl]
+  | some st =>
+    simp only [populate_existing_reads_db]
+    rw [map_snd_zip_eq _ _ hl]
+
+/-- in a Session that did not hold the object the option makes no difference -/
+theorem readEnt_fresh (h : Hier) (c : Nat) (wp : WP) (pe : Bool) (pre : Nat → Option (Nat → ASt))
+    (e : Ent) (hl : e.vals.length = (h.anc e.cls).length) (hp : pre e.id = none) :
+    readEnt h c wp pe pre e = e := by
+  unfold readEnt
+  simp only [hp, new_instance_reads_db]
+  rw [map_snd_zip_eq _ _ hl]
+
+/-- the stored objects come back with value lists of the right length, so the two theorems
+    above apply to every result of `polymorphic_most_specific_*` -/
+theorem entOf_vals_length (h : Hier) (o : PObj) : (entOf h o).vals.length = (h.anc (entOf h o).cls).length := by
+  simp [entOf]
+
+/-- in a fresh Session the statement count after attribute access is the one of section 4 -/
+theorem deferredLoadsSt_fresh (h : Hier) (k : Kind) (c : Nat) (wp : WP) (pe : Bool) (ents : List Ent) :
+    deferredLoadsSt h k c wp pe (fun _ => none) ents = deferredLoads h k c wp ents := by
+  cases k with
+  | concrete => rfl
+  | single =>
+    simp only [deferredLoadsSt, deferredLoads]
+    congr 1
+    apply List.filter_congr
+    intro e _
+    rw [List.not_all_eq_any_not]
+    congr 1
+    funext a
+    unfold populate
+    cases pe <;> cases (primaryCols h c wp).contains a <;> simp
+  | joined =>
+    simp only [deferredLoadsSt, deferredLoads]
+    congr 1
+    apply List.filter_congr
+    intro e _
+    rw [List.not_all_eq_any_not]
+    congr 1
+    funext a
+    unfold populate
+    cases pe <;> cases (primaryCols h c wp).contains a <;> simp
 
 end SaVerif.Props.C42
